@@ -82,6 +82,16 @@ pub fn c04_alphabet(n: usize, len: usize) -> Vec<Act> {
         if s.len > 0 {
             v.push(Act::IntoIter(s));
         }
+        for k in 0..3 {
+            v.push(Act::IterDebug(k, s));
+        }
+    }
+    for a in 0..=len {
+        for b in a..=len {
+            for s in Script::all_up_to((b - a).min(cap)) {
+                v.push(Act::DrainDebug(Rs::half_open(a, b), s));
+            }
+        }
     }
     v
 }
@@ -529,7 +539,7 @@ pub fn c07_check<const N: usize>(o: &Opts, rep: &mut Report) {
     // writes through every mutable accessor are transitions of the BFS itself
     let sp = {
         let mut cb = |_i: usize, st: &State, act: &Act, tr: &Trans| {
-            if matches!(act, Act::WriteVia(..) | Act::MakeContiguous) {
+            if matches!(act, Act::WriteVia(..) | Act::MakeContiguous | Act::DrainDebug(..)) {
                 account(rep, st, act, tr);
                 for p in &tr.problems {
                     if matches!(p.kind, PKind::Trace | PKind::Contents | PKind::Views | PKind::PanicMismatch | PKind::Duplicate | PKind::DeadReachable) {
@@ -545,6 +555,29 @@ pub fn c07_check<const N: usize>(o: &Opts, rep: &mut Report) {
             continue;
         }
         crate::set_case(&format!("n={}|ctor={}|recipe={}|filling=none|act=views|fault=none", N, st.recipe.ctor, st.recipe.acts_str()));
+        // the Debug views of iterators and drains present the same (remaining) sequence
+        let mut dbg: Vec<Act> = vec![];
+        for s in Script::all_up_to(st.len.min(2)) {
+            for k in 0..3 {
+                dbg.push(Act::IterDebug(k, s));
+            }
+        }
+        for a in 0..=st.len {
+            for b in a..=st.len {
+                for s in Script::all_up_to((b - a).min(2)) {
+                    dbg.push(Act::DrainDebug(Rs::half_open(a, b), s));
+                }
+            }
+        }
+        for act in dbg {
+            let tr = transition::<N>(&st.recipe, &[], &act, None);
+            account(rep, st, &act, &tr);
+            for p in &tr.problems {
+                if matches!(p.kind, PKind::Trace | PKind::PanicMismatch) {
+                    record(rep, N, &st.recipe, &[], &act, None, p, "debug-view");
+                }
+            }
+        }
         let probs = c07_state::<N>(&st.recipe);
         rep.transitions += 1;
         rep.evaluations += 1;
@@ -917,8 +950,15 @@ pub fn c09_check<const N: usize>(o: &Opts, rep: &mut Report) {
                     } else {
                         vec![Script::empty(), Script::all_front(b - a + 1), Script::all_back(b - a + 1)]
                     };
-                    for s in scripts {
-                        let act = Act::Drain(rs, s, Fin::Drop);
+                    let mut acts: Vec<Act> = scripts.iter().map(|s| Act::Drain(rs, *s, Fin::Drop)).collect();
+                    if k == 0 {
+                        acts.extend(Script::all_up_to(b - a).map(|s| Act::DrainDebug(rs, s)));
+                    }
+                    for act in acts {
+                        let s = match act {
+                            Act::Drain(_, s, _) | Act::DrainDebug(_, s) => s,
+                            _ => Script::empty(),
+                        };
                         let tr = transition::<N>(&st.recipe, &[], &act, None);
                         account(rep, st, &act, &tr);
                         for p in tr.problems.iter().filter(|p| C09_KINDS.contains(&p.kind)) {
@@ -928,7 +968,7 @@ pub fn c09_check<const N: usize>(o: &Opts, rep: &mut Report) {
                             record(rep, N, &st.recipe, &[], &act, None, p, "final-drop");
                         }
                         // the drained range really was removed *from the storage discipline*: C07's predicate on the result
-                        if tr.problems.is_empty() && s.len == 0 && k == 0 {
+                        if tr.problems.is_empty() && s.len == 0 && k == 0 && matches!(act, Act::Drain(..)) {
                             let mut r2 = st.recipe.clone();
                             r2.acts.push(act);
                             for p in c07_state::<N>(&r2) {
